@@ -11,8 +11,16 @@ from .canon import canon
 class C10Mixin(object):
 
     # -- tables ---------------------------------------------------------------
+    def ev_names(self, mapping):
+        """Per-run name map: the name the library is given for the table the events call T1, T2, ...
+        (table names are user data: short ones, prefixes of each other, parts of the word 'public')."""
+        self.namemap = dict(mapping)
+        C.REAL2EV.clear()
+        C.REAL2EV.update({real: ev for ev, real in mapping.items()})
+        return "ok"
+
     def ev_newtable(self, name):
-        t = self.core.PeriodicTable(name)
+        t = self.core.PeriodicTable(getattr(self, "namemap", {}).get(name, name))
         self.tables[name] = t
         return "ok"
 
